@@ -69,7 +69,7 @@ class C20(Prop):
             elif k == 'hresp':
                 c.update(data=rng.choice(['', 'aa']))
             else:
-                c.update(limit=rng.choice([1, 2, 3, 2 ** 31 - 1]), count=rng.choice([0, 1, 4, 7]))
+                c.update(limit=rng.choice([1, 2, 3, 2 ** 31 - 1]), count=rng.choice([0, 1, 2, 3, 4, 6, 7]), end=rng.choice(['complete', 'flag']))
             out.append(c)
         return out
 
@@ -322,17 +322,26 @@ class C20(Prop):
         def requested():
             return sum(e[2].request_n for e in t.sent if isinstance(e[2], F.RequestNFrame))
         delivered, max_out = 0, 0
+        flagged = False
+        n_before_end = None
         while delivered < case['count'] and delivered < requested():
-            t.deliver(engine.build_frame({'ty': 'PAYLOAD', 'sid': 1, 'data': [delivered + 1]}).serialize())
+            last = delivered == case['count'] - 1 and case.get('end') == 'flag'
+            if last:
+                n_before_end = len([e for e in t.sent if isinstance(e[2], F.RequestNFrame)])
+            t.deliver(engine.build_frame({'ty': 'PAYLOAD', 'sid': 1, 'data': [delivered + 1], 'complete': last}).serialize())
+            flagged = flagged or last
             delivered += 1
             await loop.settle()
-            max_out = max(max_out, requested() - delivered)
-        if delivered == case['count']:
+            if not last:
+                max_out = max(max_out, requested() - delivered)
+        if delivered == case['count'] and not flagged:
+            n_before_end = len([e for e in t.sent if isinstance(e[2], F.RequestNFrame)])
             t.deliver(engine.build_frame({'ty': 'PAYLOAD', 'sid': 1, 'data': [], 'complete': True}).serialize())
             await loop.settle()
         amounts = [e[2].request_n for e in t.sent if isinstance(e[2], F.RequestNFrame)]
+        late = len(amounts) - n_before_end if n_before_end is not None else 0
         await server.close()
-        return {'got': got, 'amounts': amounts, 'delivered': delivered, 'max_outstanding': max_out}
+        return {'got': got, 'amounts': amounts, 'delivered': delivered, 'max_outstanding': max_out, 'requests_after_completion': late}
 
     # -- model / verdict --------------------------------------------------------------------------
     def model_lines(self, case, obs):
@@ -462,6 +471,9 @@ class C20(Prop):
                 add('terminal-signal-altered', 'completion not delivered to the channel observer: %s' % obs['got'][-2:])
             if obs['delivered'] < case['count']:
                 add('adapter-stalled', 'channel observer: delivered %d of %d, no more credit requested' % (obs['delivered'], case['count']))
+            if obs.get('requests_after_completion'):
+                add('request-n-after-completion', 'the adapter sent %d REQUEST_N after the requester completed (limit %d, %d elements, end=%s)' % (
+                    obs['requests_after_completion'], case['limit'], case['count'], case.get('end')))
         return fails
 
     def nontrivial(self, case, obs):
